@@ -235,6 +235,9 @@ def gen_case(rng, tier, ctx, i):
             node["args"] = (args + [{"k": "var", "id": "h", "b": list(rng.choice(FB))}])[:2]
         if k == "Not":
             node["args"] = args[:1]
+        if rng.random() < 0.3 and k != "Not":
+            node["id"] = "FN"
+            node["fix"] = rng.choice([0, 1])        # the node's own variable is fixed independently of its children: the flags are about the children
         flag_nodes.append(node)
     return common.with_twins(rng, {"recipe": rec, "seed": rng.getrandbits(32), "flag_nodes": flag_nodes})
 
@@ -266,6 +269,23 @@ def _run_one(case, ctx):
         if adapters.is_leaf(fm):
             continue
         _g, _t, finfo = adapters.graph_of(fm)
+        if fr.get("id") == "FN" and fr.get("fix") is None or (fr.get("k") in ("Any", "All", "AtLeast") and rng.random() < 0.3):
+            # nodes the library hands out itself with a settled variable: assume() settles it, negate() keeps it
+            try:
+                lv = [l for l in refmodel.leaves(_g, _t)]
+                if lv:
+                    lid = rng.choice(lv)
+                    am = recipes.fresh(fr).assume({lid: rng.choice(list(_g[lid]["b"]))})
+                    for dn in [am] + ([am.negate()] if not adapters.is_leaf(am) else []):
+                        if not adapters.is_leaf(dn):
+                            ctx.count("count:flag-node:derived")
+                            ctx.call("is_tautology", lambda o=dn: o.is_tautology)
+                            ctx.call("is_contradiction", lambda o=dn: o.is_contradiction)
+                            ctx.call("equation_bounds", lambda o=dn: o.equation_bounds)
+            except monitor.ContractBroken:
+                raise
+            except Exception:
+                ctx.count("flag-node:derived:not-built")
         for nid, obj in finfo["objects"].items():
             if not adapters.is_leaf(obj):
                 ctx.count("count:flag-node:" + type(obj).__name__)
@@ -306,6 +326,13 @@ def _run_one(case, ctx):
     for _ in range(4 if ctx.tier == "quick" else 8):
         d = rand_partial(rng, graph, top)
         m = recipes.fresh(case["recipe"])
+        if rng.random() < 0.15 and d and all(isinstance(v, int) and not isinstance(v, bool) for v in d.values()):
+            # other mapping types a caller may hold its values in (they are dicts): leaves that are not keys stay unspecified
+            import collections
+            d = rng.choice([collections.Counter, lambda d_: collections.defaultdict(int, d_), collections.OrderedDict])(d)
+            ctx.count("count:dict-subclass-interpretations")
+            ctx.call("evaluate_propositions", m.evaluate_propositions, d)
+            continue
         if rng.random() < 0.6:
             ctx.call("evaluate_propositions", m.evaluate_propositions, dict(d))
         else:
